@@ -427,7 +427,9 @@ class Check:
               "coverage": self.cov, "assumptions": self.assumptions, "wall_s": round(self.elapsed(), 1),
               "violations": len(self.violations)}
         evdir = os.path.join(VERIF, "evidence") if REPO == "/repo" else os.path.join(BUILD, "evidence-scratch")
-        if REPO == "/repo" and not self.prop.startswith("C"):
+        if os.environ.get("VERIF_REPLAY"):
+            evdir = os.path.join(BUILD, "evidence-scratch")     # a replay of one saved program says nothing about coverage
+        elif REPO == "/repo" and not self.prop.startswith("C"):
             evdir = os.path.join(VERIF, "evidence-extra")      # specifications beyond the listed properties (not in MANIFEST.json)
         os.makedirs(evdir, exist_ok=True)
         with open(os.path.join(evdir, self.prop + ".json"), "w") as f:
@@ -594,6 +596,16 @@ def conformance(c, exe, programs, spec_dir, module, cfg, tag, meta=None, procs=8
     may return a known-finding description.  Returns number of validated executions."""
     wd = os.path.join(c.dir, tag)
     t_start = time.time()
+    rp = os.environ.get("VERIF_REPLAY")
+    if rp:
+        # bin/check <id> --replay <path>: only the saved program is executed and validated (by the conformance step whose
+        # tag its file name carries; the other steps of the check are skipped)
+        base = os.path.basename(rp)
+        if not (base.startswith(tag + "-") and base.endswith(".prog")):
+            return 0
+        with open(rp) as f:
+            programs = [f.read()]
+        log("replaying %s" % rp)
     execs, crashes = run_programs(exe, programs, wd, tag=tag, procs=procs, timeout=run_timeout, env=env, extra_args=extra_args)
     idx = [i for i, x in enumerate(execs) if x is not None]
     for (i, rc, tail) in crashes:
